@@ -152,7 +152,8 @@ def prog_candidates(p: list) -> Iterator[list]:
         yield [p[0], macros[:i] + macros[i + 1:], routines]
     for i, m in enumerate(macros):
         for v in stmts_variants(m[3]):
-            yield [p[0], macros[:i] + [[m[0], m[1], m[2], v]] + macros[i + 1:], routines]
+            if v:
+                yield [p[0], macros[:i] + [[m[0], m[1], m[2], v]] + macros[i + 1:], routines]
     for i, r in enumerate(routines):
         if r[2] != "generic":
             yield [p[0], macros, routines[:i] + [[r[0], r[1], A("generic"), None, None, r[5], r[6]]] + routines[i + 1:]]
